@@ -260,9 +260,17 @@ def run(R, tier):
                 break
     # chains: the exponential of a symbolic bivector, and differences whose first term vanishes identically for symbolic operands
     # (an empty multivector), evaluated by calling the result
-    for it in range(4 if tier == 'quick' else 40):
+    # (also on algebras created with a user-chosen simplification function: sympy's own simplifiers, which have further optional
+    # parameters, and a user function with a defaulted second parameter)
+    def _user_simp(expr, ratio=1.7):
+        return sympy.simplify(expr, ratio=ratio)
+    simp_choices = [None, sympy.trigsimp, sympy.factor, sympy.signsimp, _user_simp, sympy.expand]
+    for it in range(6 if tier == 'quick' else 48):
         d = rng.choice((2, 3))
-        alg = algs.make_impl({'sig': [1] * d})
+        sf = simp_choices[it % len(simp_choices)]
+        # (a sympy simplifier cannot digest the built-in rational polynomials used for code generation: sympy symbols are chosen with it)
+        alg = algs.make_impl({'sig': [1] * d}, **({'simp_func': sf, 'codegen_symbolcls': sympy.Symbol} if sf is not None else {}))
+        R.count('chains: simp_func=' + (getattr(sf, '__name__', 'default') if sf else 'default'))
         Bs = alg.bivector(name='B'); vs_ = alg.vector(name='v'); ws_ = alg.vector(name='w')
         bvals = [rng.choice((0.3, -0.7, 1.1, 0.25)) for _ in Bs.keys()]
         vvals = [float(rng.randint(1, 4)) for _ in vs_.keys()]; wvals = [float(rng.randint(-4, -1)) for _ in ws_.keys()]
@@ -273,6 +281,15 @@ def run(R, tier):
                   ('(v.cp(v)) - B', lambda B_, v_, w_: v_.cp(v_) - B_), ('w - (v ^ v)', lambda B_, v_, w_: w_ - (v_ ^ v_))]
         for label, f_ in chains:
             R.count('chains'); R.case(('chain', it, label), True)
+            if sf is not None:
+                # with a user-chosen simplifier an operator may be unable to proceed (exp of a NUMERIC bivector cannot see that B*B is a scalar when
+                # the simplifier returns a sympy Float for 0.0):
+                # the property speaks about the results it does return
+                try:
+                    f_(Bs, vs_, ws_); f_(Bn, vn, wn)
+                except Exception:  # noqa
+                    R.count('chains: symbolic operator raised under a user simp_func')
+                    continue
             try:
                 sym_ = f_(Bs, vs_, ws_)
                 num_ = f_(Bn, vn, wn)
